@@ -99,6 +99,7 @@ fn main() {
             let rep = worker_for(&ctx);
             ctx.finish(&rep);
         }
+        "noop" => println!("ok"),
         "hash-child" => qv::c13::hash_child(args[2].parse().unwrap()),
         "typeid-child" => qv::c14::typeid_child(),
         "kill-child" => qv::c08::kill_child(&args[2..]),
